@@ -553,7 +553,7 @@ fn process_violation(check: &str, tier: &str, base: u64, idx: u64, v: &Violation
     // shrink it with one fresh process per candidate (slower, so a smaller budget).
     if !reproduced {
         let full = profiles::generate(check, run_seed(base, check, idx), profiles::tier_from(tier));
-        if let Some(nv) = (0..3).find_map(|_| fresh(&full)) {
+        if let Some(nv) = (0..6).find_map(|_| fresh(&full)) {
             reproduced = true;
             if let Some(nv) = nv {
                 fv = nv;
@@ -812,9 +812,18 @@ pub fn check_main(args: &[String]) -> i32 {
     let mut unknown = 0u64;
     let mut known_hits: BTreeMap<String, String> = BTreeMap::new();
     let mut lines: Vec<String> = Vec::new();
+    // A violation that does not reproduce from its replay file is a harness error — unless another
+    // violation of this invocation did reproduce: code under test whose threads race on its own
+    // locks can show one defect through several clauses, some of them only under the OS's lock
+    // hand-over of the moment. Those are noted, the reproducible ones are reported.
+    let any_reproduced = findings.iter().any(|f| f.reproduced);
     for f in &findings {
         // classification uses the minimised case
         if !f.reproduced {
+            if any_reproduced {
+                println!("NOTE violation {} (run {}) was observed but did not reproduce from its replay file {} (timing-dependent code under test); not reported", f.v.signature, f.idx, f.replay_path);
+                continue;
+            }
             println!("HARNESS-ERROR: violation {} (run {}) did not reproduce from its replay file {}", f.v.signature, f.idx, f.replay_path);
             return 2;
         }
